@@ -235,6 +235,11 @@ func c13Facts() ([]string, map[string]string, error) {
 	method("warningsReadOnly", "Document.Warnings", func(e *c13Effects) bool {
 		return !e.calls["Filter"] && !e.calls["AddFamily"] && !e.calls["AddNode"] && !e.calls["DeepCopy"]
 	})
+	method("docSetNodesRebuildsPointers", "Document.SetNodes", func(e *c13Effects) bool {
+		return e.calls["buildPointerCache"]
+	})
+	method("docSetNodesClearsFamilies", "Document.SetNodes", func(e *c13Effects) bool { return e.writes["families"] })
+	method("docSetNodesResetsIndividuals", "Document.SetNodes", invalidatesIndividuals)
 	return order, facts, nil
 }
 
